@@ -31,8 +31,11 @@ class Env:
         self.stopped = False
         self.unload_fn: Callable | None = None
         self.variant = 0
+        self.dispatcher: str | None = None       # "v4" / "dual": nodes are built on a DispatcherEndpoint
 
     def node(self, **kw: Any) -> Node:
+        if self.dispatcher is not None:
+            kw.setdefault("dispatcher", self.dispatcher)
         nd = Node(self.net, len(self.nodes), **kw)
         self.nodes.append(nd)
         return nd
@@ -569,6 +572,7 @@ SCENARIOS: dict[str, Callable] = {
     "dht": sc_dht,
     "tunnel": sc_tunnel,
     "tunnel_no6": sc_tunnel,
+    "tunnel_dual": sc_tunnel,
     "tunnel_exit": sc_tunnel_exit,
     "tunnel_prerelay": sc_tunnel_prerelay,
     "hidden": sc_hidden,
@@ -585,7 +589,7 @@ SCENARIOS: dict[str, Callable] = {
 
 
 # scenarios used as traffic corpus by C01 / C03 (the three service variants produce the same kinds of datagrams)
-CORPUS_SCENARIOS = [n for n in SCENARIOS if n not in ("service1", "service2", "service3", "service4", "service5", "tunnel_no6", "tunnel_exit", "tunnel_prerelay")]
+CORPUS_SCENARIOS = [n for n in SCENARIOS if n not in ("service1", "service2", "service3", "service4", "service5", "tunnel_no6", "tunnel_dual", "tunnel_exit", "tunnel_prerelay")]
 
 
 async def run_scenario(loop: Any, name: str, env: Env | None = None) -> Env:
@@ -595,6 +599,8 @@ async def run_scenario(loop: Any, name: str, env: Env | None = None) -> Env:
         env.variant = int(name[7:])
     if name.endswith("_no6"):
         env.no_ipv6 = True
+    if name == "tunnel_dual":
+        env.dispatcher = "dual"
     await SCENARIOS[name](loop, env)
     return env
 
